@@ -335,6 +335,10 @@ class SMergeSpec(SeqSpec):
             if rng.random() < qp:
                 ops.append(["quiesce"])
         cfg = {"n": n, "scripts": scripts, "fins": fins, "prog": prog}
+        if rng.random() < 0.25:
+            # the inputs' Close takes a while (a connection, a file): Close of the merged stream must still not return
+            # before every input's Close has - also when all inputs had already run to their end
+            cfg["slowclose_ms"] = rng.choice([4, 12])
         return {"component": "smerge", "cfg": cfg, "ops": ops}
 
     def gen(self, rng, tier, scale):
